@@ -23,7 +23,7 @@ Lookbacks  == IF Q THEN {2, 3} ELSE {1, 2, 3}
 QLookbacks == IF Q THEN {0, 1} ELSE {0, 4}
 \* 3: an offset that exceeds the smallest lookback by two ticks - a sample can be too new for one step (after the
 \* shifted time) and yet be the one a later step selects, with no sample at or after the step itself
-Offsets    == IF Q THEN {-1, 0, 3} ELSE {-2, -1, 0, 2, 3}
+Offsets    == IF Q THEN {-1, 0, 3} ELSE {-2, -1, 0, 3}
 Steps      == IF Q THEN {0, 1, 2} ELSE {0, 1, 2, 3}
 Starts     == IF Q THEN {1, 4} ELSE {0, 1, 4}
 \* with a tick of 500 ms the samples lie two ticks apart (Stretch) and the window has 23 steps of one tick: the step is
